@@ -580,6 +580,18 @@ class Emitter:
                     if ins.op == 'cast' and ins.cop == 'bitcast' and isinstance(ins.a, Local) and \
                             ins.ty.kind == 'ptr' and ins.a.name not in self.first_cast:
                         self.first_cast[ins.a.name] = ins.ty.to
+            if 'VF_TYPED_SINGLETON' in (self.opts.get('rt_defs') or {}):
+                # opt-in (rt_defs VF_TYPED_SINGLETON): `static T* g = new T()` -- the i8* result is never
+                # cast, only stored through `bitcast (T** @g to i8**)`: type it from the global
+                for b in f.blocks:
+                    for ins in b.instrs:
+                        if ins.op == 'store' and isinstance(ins.v, Local) and ins.v.name not in self.first_cast \
+                                and isinstance(ins.ptr, ConstExpr) and ins.ptr.op == 'bitcast' \
+                                and isinstance(ins.ptr.args[0], GlobalRef) \
+                                and ins.ptr.args[0].name in self.mod.globals:
+                            gt = self.mod.globals[ins.ptr.args[0].name].ty
+                            if gt.kind == 'ptr':
+                                self.first_cast[ins.v.name] = gt.to
         if root_k is None:
             w(self.proto(f) + ' {')
             for d in decls:
@@ -607,12 +619,16 @@ class Emitter:
             w('  static %s %s;' % (self.cty(p.ty), self.lname(p.name)))
         for d in decls:
             w('  static ' + d)
+        # vf_fresh[k] is a constant for CBMC's constant propagation once the thread has certainly
+        # started (the main thread always runs the first segment), so the code before the first yield
+        # point is not re-analysed in every round
+        w('  if (vf_fresh[%d]) { vf_fresh[%d] = 0; goto VF_START; }' % (root_k, root_k))
         w('  switch (vf_pc[%d]) {' % root_k)
-        w('    case 0: break;')
         for y in self.root_yields:
             w('    case %d: goto Y_%d;' % (y, y))
-        w('    default: __CPROVER_assert(0, "rt: bad resume point"); return;')
+        w('    default: __CPROVER_assume(0); return;')
         w('  }')
+        w(' VF_START: ;')
         if f.params:
             p = f.params[0]
             w('  %s = (%s)vf_thr_arg[%d];' % (self.lname(p.name), self.cty(p.ty), root_k))
@@ -1329,6 +1345,7 @@ class Emitter:
                 protos.append('void vf_root_%d(void);' % k)
                 body.extend(self.emit_function(mod.funcs[n], root_k=k))
                 body.append('')
+            body.append('void vf_first(void) { vf_tid = 0; vf_root_0(); }')
             body.append('void vf_round(void) {')
             for k, n in self.seq_roots:
                 body.append('  if (vf_slot_begin(%d)) { vf_tid = %d; vf_root_%d(); }' % (k, k, k))
